@@ -79,7 +79,10 @@ def _rand_net_model(rng, directed, nmin=4, nmax=9):
          "w": G.pos_weights(rng, n) if rng.random() < 0.7 else None,
          "attrs": {}}
     if rng.random() < 0.7:
-        m["attrs"]["w"] = G.link_attr(rng, A, directed)
+        # (half of the attributes are small integers: ties between path
+        #  lengths, and path lengths that coincide with N)
+        m["attrs"]["w"] = G.link_attr(rng, A, directed,
+                                      ties=bool(rng.random() < 0.5))
     return m
 
 
